@@ -192,6 +192,9 @@ type childArgs struct {
 	// Symlink: the configuration path is a symbolic link to the file in a sub-directory (dotfiles
 	// checkouts, /etc/... -> /data/... set-ups)
 	Symlink bool `json:"symlink,omitempty"`
+	// Leftovers: files that an earlier, interrupted save (of this or an older version) may have left
+	// next to the configuration: they must not change how the next save is done
+	Leftovers bool `json:"leftovers,omitempty"`
 }
 
 type childOut struct {
@@ -275,6 +278,13 @@ func runChild(raw json.RawMessage) (any, error) {
 			return nil, err
 		}
 	}
+	if a.Leftovers {
+		for _, n := range []string{cfgName + ".tmp", cfgName + ".tmp-123456789", cfgName + ".new", cfgName + "~", "." + cfgName + ".swp"} {
+			if err := os.WriteFile(filepath.Join(root, n), []byte("version: 2\napex: left-over-of-an-interrupted-save\n"), 0o600); err != nil {
+				return nil, err
+			}
+		}
+	}
 	cfg, err := client.NewConfig(path)
 	if err != nil {
 		return nil, fmt.Errorf("reading the bootstrap file: %w", err)
@@ -336,7 +346,7 @@ func runChain(r *ev.Run, ci int, chain []state, onlySave, onlyK int) {
 	caseBase := fmt.Sprintf("c%d", ci)
 	logPath := filepath.Join(child.WorkDir(), "c45-"+caseBase+".strace")
 	defer os.Remove(logPath)
-	res := child.Run("c45save", childArgs{Chain: chain, Symlink: ci%3 == 1}, child.Opt{Wrap: crashimg.Wrap(logPath), Timeout: 5 * time.Minute})
+	res := child.Run("c45save", childArgs{Chain: chain, Symlink: ci%3 == 1, Leftovers: ci%4 == 2}, child.Opt{Wrap: crashimg.Wrap(logPath), Timeout: 5 * time.Minute})
 	defer res.Cleanup()
 	if res.TimedOut {
 		r.Inconclusive(caseBase + ": traced child hit the watchdog")
@@ -527,7 +537,7 @@ func main() {
 	child.Register("c45save", runChild)
 	child.Main()
 	r := ev.Start("C45", "fault_enumeration")
-	r.SetRule("seeded chains of configuration saves as the client performs them (register, renew certificate, grow/replace tunnels, remove a tunnel, change apex; small and 20-200-tunnel configurations so that yaml.v3's 128-byte buffer flushes in 10..300 writes) run through (*Config).writeFile under strace; EVERY file-operation boundary of every save is one crash image read back with client.NewConfig; a case is distinct by (kind of change, last completed file operation, verdict, bucket of the boundary index); in every third chain the configuration path is a symbolic link to the file in a sub-directory (the crash-image model follows and replaces links as the kernel does)")
+	r.SetRule("seeded chains of configuration saves as the client performs them (register, renew certificate, grow/replace tunnels, remove a tunnel, change apex; small and 20-200-tunnel configurations so that yaml.v3's 128-byte buffer flushes in 10..300 writes) run through (*Config).writeFile under strace; EVERY file-operation boundary of every save is one crash image read back with client.NewConfig; a case is distinct by (kind of change, last completed file operation, verdict, bucket of the boundary index); in every third chain the configuration path is a symbolic link to the file in a sub-directory (the crash-image model follows and replaces links as the kernel does); in every fourth chain the directory already holds files an interrupted earlier save may have left (<config>.tmp, .tmp-<n>, .new, ~, .swp)")
 	r.Assume("process-crash model: completed system calls persist and are atomic; power loss is not modelled")
 	r.Assume("only the configuration file path is judged; other files a save may leave in the directory (temporary files) are ignored")
 	r.SetMaxSamples(6)
